@@ -11,3 +11,6 @@ pub assume_specification<T, F: FnOnce(T) -> bool>[ Option::<T>::is_none_or ](thi
     ensures
         this is None ==> r,
         this is Some ==> f.ensures((this->Some_0,), r);
+
+pub assume_specification<T>[ bool::then_some ](this: bool, t: T) -> (r: Option<T>)
+    ensures r == (if this { Some(t) } else { None::<T> });
